@@ -53,7 +53,8 @@ def exact(ctx, n, ratio, xi, dt, lead0=False, entry='response_series', others=No
     periods = [0.0, T] if lead0 else [T]
     if others:
         # the period under test sits among other periods, in an order that is not ascending: row k is periods[k]'s response
-        periods = ([0.0] if lead0 else []) + [o * T for o in others[:1]] + [T] + [o * T for o in others[1:]]
+        # (T first although a shorter period follows: its row index differs from its rank)
+        periods = ([0.0] if lead0 else []) + [T] + [o * T for o in others]
     if entry == 'response_series':
         ru, rv, ra = lib.sdof.response_series(a, dt, periods, xi)
     elif entry == 'nigam':
@@ -174,7 +175,7 @@ def obligations(tier, seed):
                 yield Ob('exact', {'n': 5, 'ratio': 10, 'xi': xi, 'dt': 0.01, 'lead0': lead0, 'entry': entry}, query_ms=60000)
     for entry in ('response_series', 'nigam', 'object'):
         for lead0 in (False, True):
-            yield Ob('exact', {'n': 5, 'ratio': 10, 'xi': 0.05, 'dt': 0.01, 'lead0': lead0, 'entry': entry, 'others': [2.3, 0.4]},
+            yield Ob('exact', {'n': 5, 'ratio': 10, 'xi': 0.05, 'dt': 0.01, 'lead0': lead0, 'entry': entry, 'others': [0.4, 2.3]},
                      query_ms=60000)
     for lead0 in (False, True):
         yield Ob('entry_points', {'n': 5, 'ratio': 7.3, 'xi': 0.05, 'dt': 0.01, 'lead0': lead0})
